@@ -2042,3 +2042,57 @@ def unlet_else_return(f):
     if n:
         f.rewrites.append(('R3', f'{n}x top-level `let PAT = E else {{ return R; }};` + rest -> `match E {{ PAT => {{ rest }}, _ => R }}`', ''))
     return f
+
+
+CHUNKS_STUBS = r'''
+verus! {
+/// `xs[lo..hi].to_vec()`
+#[verifier::external_body]
+pub fn slice_to_vec_<T: Copy>(xs: &Vec<T>, lo: usize, hi: usize) -> (r: Vec<T>) requires lo <= hi <= xs@.len() ensures r@ == xs@.subrange(lo as int, hi as int) { unimplemented!() }
+/// usize::div_ceil
+#[verifier::external_body]
+pub fn chunks_count_(len: usize, n: usize) -> (r: usize) requires n > 0 ensures r * n >= len, (r as int - 1) * n < len || r == 0, (len == 0 ==> r == 0) { unimplemented!() }
+}
+'''
+
+
+def unchunks_to_vec_collect(f):
+    """R5: `let NAME: Vec<Vec<T>> = RECV.chunks(N).map(<[T]>::to_vec).collect();` (also `.map(|c| c.to_vec())`) ->
+    `let all_NAME = RECV; let n_NAME = N; let mut NAME: Vec<Vec<T>> = Vec::new(); for k_NAME in 0..chunks_count_(all_NAME.len(), n_NAME) { NAME.push(slice_to_vec_(&all_NAME, k*n, min((k+1)*n, len))); }`
+    (needs CHUNKS_STUBS; slice::chunks panics on N == 0: the stub's precondition)"""
+    n = 0
+    while True:
+        m = re.search(r'let (\w+): Vec<Vec<(\w+)>> = ', f.body)
+        hit = None
+        for m in re.finditer(r'let (\w+): Vec<Vec<(\w+)>> = ', f.body):
+            i, depth = m.end(), 0
+            while i < len(f.body):
+                ch = f.body[i]
+                if ch in '({[':
+                    depth += 1
+                elif ch in ')}]':
+                    depth -= 1
+                elif ch == ';' and depth == 0:
+                    break
+                i += 1
+            expr = f.body[m.end():i]
+            mc = re.search(r'\.\s*chunks(\()', expr)
+            if not mc:
+                continue
+            close = match_brace(expr, mc.start(1))
+            rest = expr[close + 1:]
+            if not re.fullmatch(r'\s*\.map\((?:<\[\w+\]>::to_vec|\|\s*(\w+)\s*\|\s*\1\.to_vec\(\))\)\s*\.collect\(\)\s*', rest):
+                continue
+            hit = (m, i, expr[:mc.start()].strip(), expr[mc.start(1) + 1:close].strip())
+            break
+        if not hit:
+            break
+        m, i, recv, nn = hit
+        x, ty = m.group(1), m.group(2)
+        new = (f'let all_{x}_ = {recv}; let n_{x}_: usize = {nn}; let mut {x}: Vec<Vec<{ty}>> = Vec::new(); let c_{x}_ = chunks_count_(all_{x}_.len(), n_{x}_); '
+               f'for k_{x}_ in 0..c_{x}_ {{ let lo_ = k_{x}_ * n_{x}_; let hi_ = if lo_ + n_{x}_ < all_{x}_.len() {{ lo_ + n_{x}_ }} else {{ all_{x}_.len() }}; {x}.push(slice_to_vec_(&all_{x}_, lo_, hi_)); }}')
+        f.body = f.body[:m.start()] + new + f.body[i + 1:]
+        n += 1
+    if n:
+        f.rewrites.append(('R5', f'{n}x `let X: Vec<Vec<T>> = RECV.chunks(N).map(to_vec).collect();` -> index loop over ceil(len/N) sub-slices', ''))
+    return f
